@@ -239,17 +239,21 @@ class Factory:
             self._p4 = [x[idx] for x in p]
         return self._p4
 
-    def config(self, key, data_opts=None, constrains=None):
-        """-> (ConfigLoader, pool of events with angles, amplitude)"""
-        if key not in self._cfg:
-            from tf_pwa.config_loader import ConfigLoader
+    def new_config(self, data_opts=None, constrains=None):
+        """-> (fresh ConfigLoader, shared pool of events with angles, amplitude).
 
-            np.random.seed((self.seed + 7919 * len(self._cfg)) % (2**32))
-            c = ConfigLoader(base_config(data_opts, constrains))
-            amp = c.get_amplitude()
-            pool = c.data.cal_angle([np.array(x) for x in self.p4()])
-            self._cfg[key] = (c, pool, amp)
-        return self._cfg[key]
+        A ConfigLoader caches its model objects (lru_cache on _get_model), so one configuration = one
+        ConfigLoader; the event pool is computed once (its keys are particles / decays, which compare by name).
+        """
+        from tf_pwa.config_loader import ConfigLoader
+
+        self.n_cfg = getattr(self, "n_cfg", 0) + 1
+        np.random.seed((self.seed + 7919 * self.n_cfg) % (2**32))
+        c = ConfigLoader(base_config(data_opts, constrains))
+        amp = c.get_amplitude()
+        if getattr(self, "_pool", None) is None:
+            self._pool = c.data.cal_angle([np.array(x) for x in self.p4()])
+        return c, self._pool, amp
 
 
 def quiet(fn, *a, **kw):
